@@ -890,15 +890,25 @@ pub fn build_reg_world(
   let world = w.to_world();
   let loader = ScriptedLoader::new(&world);
   let mut graph = ModuleGraph::new(kind);
-  for (req, ver) in &w.lock_selected {
-    let r = PackageReq::from_str(req).unwrap();
-    graph.packages.add_nv(
-      r.clone(),
-      PackageNv {
-        name: r.name.clone(),
-        version: Version::parse_standard(ver).unwrap(),
-      },
-    );
+  {
+    // the lockfile is applied through the public entry point; besides the
+    // jsr: selections it holds npm: entries (also of packages that share a
+    // name with a JSR package), which say nothing about JSR packages
+    use deno_semver::package::PackageKind;
+    let mut entries: Vec<(deno_semver::jsr::JsrDepPackageReq, String)> = vec![];
+    for (req, ver) in &w.lock_selected {
+      entries.push((deno_semver::jsr::JsrDepPackageReq::jsr(PackageReq::from_str(req).unwrap()), ver.clone()));
+    }
+    if !w.lock_selected.is_empty() || w.cutoff {
+      for (req, ver) in [("@s/a@1", "1.5.0"), ("@s/a@*", "9.9.9"), ("chalk@5", "5.3.0")] {
+        entries.push((deno_semver::jsr::JsrDepPackageReq::npm(PackageReq::from_str(req).unwrap()), ver.to_string()));
+      }
+    }
+    let _ = PackageKind::Jsr;
+    graph.fill_from_lockfile(deno_graph::FillFromLockfileOptions {
+      redirects: std::iter::empty(),
+      package_specifiers: entries.iter().map(|(k, v)| (k, v.as_str())),
+    });
   }
   let cfg = BuildCfg {
     kind,
